@@ -348,6 +348,8 @@ mod result;
 #[doc(hidden)]
 pub mod statements;
 mod util;
+#[cfg(exmex_verif)]
+pub mod verif;
 
 #[cfg(feature = "partial")]
 pub use data_type::DiffDataType;
